@@ -289,10 +289,13 @@ CHECKS = {
             {"entry": M + "/sources/env.HarnessC16EnvOddTags", "pkgs": ENVP + ["sort"], "must_reach": ["c16-types-end"]},
             {"entry": M + "/sources/env.HarnessC16EnvGen2", "pkgs": ENVP + ["sort"], "must_reach": ["c16-envgen-end"]},
             {"entry": M + "/sources/env.HarnessC16EnvGen3", "pkgs": ENVP + ["sort"], "must_reach": ["c16-envgen-end"], "tiers": ["thorough"]},
+            {"entry": M + "/sources/env.HarnessC16EnvPtrGen2", "pkgs": ENVP + ["sort"], "must_reach": ["c16-envgen-end"]},
             {"entry": M + "/sources/flag.HarnessC16FlagGen2", "pkgs": FLAGP, "must_reach": ["c16-flaggen-end"]},
             {"entry": M + "/sources/flag.HarnessC16FlagNamed", "pkgs": FLAGP, "must_reach": ["c16-flag-named-end"]},
             {"entry": M + "/sources/pflag.HarnessC16PflagNamed", "pkgs": PFLAGP, "must_reach": ["c16-pflag-named-end"]},
             {"entry": M + "/sources/pflag.HarnessC16PflagGen2", "pkgs": PFLAGP, "must_reach": ["c16-pflaggen-end"]},
+            {"entry": M + "/sources/flag.HarnessC16FlagPtrGen2", "pkgs": FLAGP, "must_reach": ["c16-flaggen-end"]},
+            {"entry": M + "/sources/pflag.HarnessC16PflagPtrGen2", "pkgs": PFLAGP, "must_reach": ["c16-pflaggen-end"]},
             {"entry": M + "/sources/flag.HarnessC16FlagPtrLeaves", "pkgs": FLAGP, "must_reach": ["c16-flag-ptr-end"]},
             {"entry": M + "/transform.HarnessC10TypeSubst", "pkgs": TFP, "must_reach": ["c10-typesubst-end"]},
             {"entry": PARSE + ".HarnessC16ParseTextThorough", "pkgs": TEXT, "must_reach": ["c16-text-end"], "loopcap": 300, "tiers": ["thorough"]},
